@@ -237,6 +237,79 @@ pub fn encap_frag_lattice() {
     }
 }
 
+/// Lattice tier with ONE symbolic payload byte at a symbolic position: for every PDU
+/// length 0..=70000 and buffer length 0..=70000, the byte at PDU position i is found at
+/// offset (header + i) of the packet whenever position i is carried, and nothing else of
+/// the payload area becomes non-zero.  Extends the byte tier's "payload = the PDU slice"
+/// to all lengths (for an otherwise zero PDU).
+#[kani::proof]
+#[kani::unwind(8)]
+pub fn encap_payload_position_lattice() {
+    let pdu_len = any_len(BIG);
+    let buf_len = any_len(BIG);
+    let mut pdu_v = zeros(pdu_len);
+    let mut buf_v = zeros(buf_len);
+    let i = any_len(BIG);
+    kani::assume(i < pdu_len);
+    let x: u8 = kani::any();
+    kani::assume(x != 0);
+    pdu_v[i] = x;
+    let label = any_label();
+    let st = any_enc_state();
+    let mut enc = Encapsulator::verif_from_parts(ConstCrc(0), st.0, st.1, st.2, st.3);
+    let r = enc.encap(&pdu_v[..], kani::any(), EncapMetadata::new(kani::any(), label), &mut buf_v[..]);
+    let wl = written_label(&st, &label);
+    let (hdr, carried) = match &r {
+        Ok(EncapStatus::CompletedPkt(_)) => (4 + wl.len(), pdu_len),
+        Ok(EncapStatus::FragmentedPkt(_, ctx)) => (7 + wl.len(), ctx.len_pdu_frag() as usize),
+        Err(_) => {
+            core::mem::forget(enc);
+            return;
+        }
+    };
+    if i < carried {
+        assert!(buf_v[hdr + i] == x, "C06.payload_byte_at_its_position");
+        kani::cover!(i > 4000, "deep_position");
+    }
+    let j = any_len(BIG);
+    if j < carried && j != i {
+        assert!(buf_v[hdr + j] == 0, "C06.no_other_payload_byte_disturbed");
+    }
+    kani::cover!(carried > 4000 && buf_len > 4097, "big_first_fragment");
+    core::mem::forget(enc);
+}
+
+/// Same for continuation packets: PDU position pos + i lands at offset 3 + i.
+#[kani::proof]
+pub fn encap_frag_payload_position_lattice() {
+    let pdu_len = any_len(65535);
+    let buf_len = any_len(BIG);
+    let mut pdu_v = zeros(pdu_len);
+    let mut buf_v = zeros(buf_len);
+    let k = any_len(65535);
+    kani::assume(k < pdu_len);
+    let x: u8 = kani::any();
+    kani::assume(x != 0);
+    pdu_v[k] = x;
+    let ctx = any_ctx();
+    let pos = ctx.len_pdu_frag() as usize;
+    let enc = Encapsulator::new(ConstCrc(0));
+    let r = enc.encap_frag(&pdu_v[..], &ctx, &mut buf_v[..]);
+    let adv = match &r {
+        Ok(EncapStatus::CompletedPkt(_)) => pdu_len - pos,
+        Ok(EncapStatus::FragmentedPkt(_, c2)) => c2.len_pdu_frag() as usize - pos,
+        Err(_) => return,
+    };
+    if k >= pos && k < pos + adv {
+        assert!(buf_v[3 + (k - pos)] == x, "C06.payload_byte_at_its_position");
+        kani::cover!(k - pos > 4000, "deep_position");
+    }
+    let j = any_len(65535);
+    if j < adv && pos + j != k {
+        assert!(buf_v[3 + j] == 0, "C06.no_other_payload_byte_disturbed");
+    }
+}
+
 #[cfg(feature = "twins")]
 #[kani::proof]
 #[kani::unwind(8)]
